@@ -50,7 +50,14 @@ class InitMethod(MethodDescriptor):
             )
             for parent in reversed(spec_cls.mro()[1:]):
                 parent_metadata = getattr(parent, "__spec_class__", None)
-                if parent_metadata:
+                if parent_metadata and (
+                    parent_metadata.owner is parent or "__init__" in parent.__dict__
+                ):
+                    # (A plain class in between that merely inherits its
+                    # metadata and constructor from a spec-class is skipped:
+                    # calling "its" constructor would run that spec-class's
+                    # constructor a second time, without arguments, and reset
+                    # what the first call just assigned.)
                     parent_kwargs = {}
                     for attr in parent_metadata.attrs:
                         instance_attr_spec = instance_metadata.attrs[attr]
